@@ -53,6 +53,8 @@ type Case struct {
 	// Noise is the number of goroutines that keep calling Service.Resource on the
 	// batch's resource names while a concurrent batch is served (RunConcurrent only).
 	Noise int `json:"noise,omitempty"`
+	// NoLogger serves the case on a service configured with SetLogger(nil).
+	NoLogger bool `json:"noLogger,omitempty"`
 }
 
 func (c Case) String() string {
@@ -239,7 +241,11 @@ func Run(c *Case) *Result {
 	s := Build(c, rs)
 	conn := fakeconn.New()
 	out := &Result{}
-	r, err := svc.Start(s, conn, nil)
+	startFn := svc.Start
+	if c.NoLogger {
+		startFn = svc.StartNoLog
+	}
+	r, err := startFn(s, conn, nil)
 	if err != nil {
 		out.StartErr = err
 		return out
@@ -334,7 +340,11 @@ func RunConcurrent(c *Case) *Result {
 	s.SetInChannelSize(len(c.Reqs) + 16)
 	conn := fakeconn.New()
 	out := &Result{}
-	r, err := svc.Start(s, conn, nil)
+	startFn := svc.Start
+	if c.NoLogger {
+		startFn = svc.StartNoLog
+	}
+	r, err := startFn(s, conn, nil)
 	if err != nil {
 		out.StartErr = err
 		return out
@@ -744,6 +754,7 @@ func GenRequest(name string, hs []HandlerSpec, uniq string) *rapid.Generator[Req
 func GenCase() *rapid.Generator[Case] {
 	return rapid.Custom(func(t *rapid.T) Case {
 		c := Case{Name: rapid.SampledFrom([]string{"svc", "svc", "a.b"}).Draw(t, "name"), Workers: rapid.SampledFrom([]int{1, 2, 4}).Draw(t, "workers")}
+		c.NoLogger = rapid.IntRange(0, 4).Draw(t, "nologger") == 0
 		c.Handlers = GenHandlers().Draw(t, "handlers")
 		n := rapid.IntRange(1, 4).Draw(t, "nreq")
 		for i := 0; i < n; i++ {
